@@ -253,7 +253,24 @@ pub fn run(mut run: Run) -> i32 {
         cfg.mls3_stride = 9;
         cfg.mpg_stride = 20;
     }
-    let shapes = families(&cfg);
+    let mut shapes = families(&cfg);
+    // mixed-dimension collections (C17 compares with plain relate, so the single-dimension restriction of C01 does not apply):
+    // a point / line member lying outside the extent of the other members, nested and flat
+    {
+        use geo::{GeometryCollection, Point};
+        let base: Vec<Shape> = shapes.iter().filter(|s| matches!(s.fam, "PG" | "LN" | "LS" | "RC" | "TR")).step_by(if quick { 17 } else { 5 }).cloned().collect();
+        let g3 = crate::enumr::grid(3);
+        for (i, b) in base.iter().enumerate() {
+            for (j, &p) in g3.iter().enumerate() {
+                if (i + j) % 3 != 0 {
+                    continue;
+                }
+                let pt = Geometry::Point(Point(c(p)));
+                let members = if (i + j) % 2 == 0 { vec![b.g.clone(), pt] } else { vec![Geometry::GeometryCollection(GeometryCollection(vec![pt])), b.g.clone()] };
+                shapes.push(Shape::new(b.ag.clone(), Geometry::GeometryCollection(GeometryCollection(members)), "GCmixed"));
+            }
+        }
+    }
     let n = shapes.len();
     run.stage("pairs-reuse", n, |ia, acc| {
         let a = &shapes[ia];
